@@ -1,4 +1,166 @@
-(* C01 — statements are being added; see DESIGN.md section 7. *)
-From XSG.Model Require Import Strings.
-Example C01_placeholder : True. Proof. exact I. Qed.
-Print Assumptions C01_placeholder.
+(* C01 — the generated structs describe every source document.
+   "For every sequence of well-formed XML documents that share a root element name (and in which
+    no two sibling element names, and no two attribute names of one element, differ only by
+    namespace prefix), the struct definitions rendered after parsing the first document and
+    extending with the others describe each of those documents.  At every position of every
+    document each attribute and each child element has a field bound to its XML name in the
+    struct for that position, every field not wrapped in Option is present in every occurrence
+    of its parent, every child field not wrapped in Vec occurs at most once per parent
+    occurrence, and character data appears only where the struct has a text field or the
+    element is typed String."
+   * `TreeAdmits x nd` (Proofs/AdmitProofs.v; read by C01_TreeAdmits_reading): the tree node x
+     describes the document element nd — every attribute has an entry, a non-optional attribute
+     is present, a non-optional child is present, a child not marked multiple occurs at most
+     once, character data only where the text flag is set, and every child element has its
+     node, hereditarily.
+   * C01_repr_admits: a node that has absorbed exactly the occurrences `os` (`Repr`, the
+     parser's invariant proved in ExactProofs.v) describes each of them.
+   * C01_tree_admits: the tree returned by `run_dom docs` describes the root element of every
+     one of the documents.
+   * C01_render_admits_tree / C01_render_admits / C01_render_admits_quick_xml: the boolean oracle
+     `admits_b` of Corr/Oracles.v — the check the differential harness applies to the REAL
+     implementation's output for every source document — is true of the model's rendering.
+     Hypotheses: `clash_free_tree e` (the property's own hypothesis, on the inferred tree: at
+     every node the attribute names after prefix removal, and the child names after prefix
+     removal, are pairwise different), `names_plain e` (no element name below the root contains
+     '@' or '$' — true of every XML name; it keeps the key spaces prefix ++ attribute / child
+     local name / text identifier of one struct apart), and on the options: the attribute
+     prefix starts with '@' and the text identifier contains '$' (`opts_plain`; the quick-xml
+     preset "@", "$text").  All three are needed: C01_needs_clash_free, C01_needs_plain,
+     C01_needs_prefix.
+   Only statements; every proof is `exact <lemma of Proofs/AdmitProofs.v>`. *)
+From Coq Require Import String.
+From XSG.Model Require Import Strings Necessity Element Dom Spec Render.
+From XSG.Proofs Require Import ElementProofs ReprDefs AdmitProofs.
+From XSG.Corr Require Import Common Oracles.
+Local Open Scope list_scope.
+
+(* ---------- the tree ---------- *)
+Theorem C01_TreeAdmits_reading : forall x n ef attrs kids0,
+  TreeAdmits x (NElem n ef attrs kids0) <->
+  let kids := okids (NElem n ef attrs kids0) in      (* no content for the empty form <n/> *)
+  (forall a, In a attrs -> In a (map snd (eattrs x)))
+  /\ (forall a, In (Mand, a) (eattrs x) -> In a attrs)
+  /\ (forall c, In c (echildren x) -> fst c = Mand -> In (cname c) (elem_names kids))
+  /\ (forall c, In c (echildren x) -> estandalone (snd c) = true ->
+                (List.length (named (cname c) kids) <= 1)%nat)
+  /\ (chardata kids = true -> etext x = true)
+  /\ Forall (fun k => match k with
+                      | NElem m _ _ _ =>
+                          exists c, get_child (echildren x) m = Some c /\ TreeAdmits (snd c) k
+                      | _ => True
+                      end) kids.
+Proof. exact TreeAdmits_elem. Qed.
+
+Theorem C01_repr_admits : forall nd x os, Repr x os -> In nd os -> TreeAdmits x nd.
+Proof. exact repr_admits. Qed.
+
+Theorem C01_tree_admits : forall docs m e,
+  docs <> [] -> Forall (Forall wf_node) docs -> Forall (fun p => elem_names p = [m]) docs ->
+  run_dom docs = Some e ->
+  forall d r, In d docs -> doc_root d = Some r -> TreeAdmits e r.
+Proof. exact tree_admits. Qed.
+
+(* ---------- the rendered structs ---------- *)
+Theorem C01_render_admits_tree : forall o e d r,
+  ((exists p, attribute_prefix o = 64%N :: p) /\ In 36%N (text_identifier o)) ->
+  clash_free_tree e = true -> names_plain e = true ->
+  doc_root d = Some r -> TreeAdmits e r ->
+  admits_b o (map erase (render_abs o e)) d = true.
+Proof. exact render_admits_tree. Qed.
+
+Theorem C01_render_admits : forall o docs m e,
+  docs <> [] -> Forall (Forall wf_node) docs -> Forall (fun p => elem_names p = [m]) docs ->
+  run_dom docs = Some e ->
+  clash_free_tree e = true -> names_plain e = true ->
+  attribute_prefix o = s "@" -> text_identifier o = s "$text" ->
+  forall d, In d docs -> admits_b o (map erase (render_abs o e)) d = true.
+Proof. exact render_admits. Qed.
+
+Theorem C01_render_admits_quick_xml : forall docs m e,
+  docs <> [] -> Forall (Forall wf_node) docs -> Forall (fun p => elem_names p = [m]) docs ->
+  run_dom docs = Some e ->
+  clash_free_tree e = true -> names_plain e = true ->
+  forall d, In d docs -> admits_b quick_xml_de (map erase (render_abs quick_xml_de e)) d = true.
+Proof. exact render_admits_quick_xml. Qed.
+
+(* the tree-level hypothesis implies the invariant the other properties use *)
+Theorem C01_clash_free_Uniq : forall e, clash_free_tree e = true -> Uniq e.
+Proof. exact clash_free_Uniq. Qed.
+
+(* ---------- examples ---------- *)
+(* ex_doc1 = <r id=".."><ns:a>t</ns:a><b k=".."><c/></b><b k=".."/></r>
+   ex_doc2 = <r id=".." lang=".."><b k="..">text<c/><c/></b></r>          (AdmitProofs.v) *)
+Example C01_example_hypotheses :
+  ex_docs <> [] /\ Forall (Forall wf_node) ex_docs
+  /\ Forall (fun p => elem_names p = [s "r"]) ex_docs
+  /\ exists e, run_dom ex_docs = Some e /\ clash_free_tree e = true /\ names_plain e = true.
+Proof. exact ex_hypotheses. Qed.
+
+Example C01_example_admits_both :
+  match run_dom [ex_doc1; ex_doc2] with
+  | Some e => map (admits_b quick_xml_de (map erase (render_abs quick_xml_de e))) [ex_doc1; ex_doc2]
+  | None => []
+  end = [true; true].
+Proof. exact ex_admits_both. Qed.
+
+(* the structs of the first document alone do not describe the second *)
+Example C01_example_first_alone :
+  match run_dom [ex_doc1] with
+  | Some e => map (admits_b quick_xml_de (map erase (render_abs quick_xml_de e))) [ex_doc1; ex_doc2]
+  | None => []
+  end = [true; false].
+Proof. exact ex_first_alone. Qed.
+
+(* ex_doc3 = <r id=".." lang=".."/>: one attribute more than ex_doc1 is enough *)
+Example C01_example_extra_attribute :
+  match run_dom [ex_doc1], run_dom [ex_doc1; ex_doc3] with
+  | Some e1, Some e13 =>
+      (admits_b quick_xml_de (map erase (render_abs quick_xml_de e1)) ex_doc3,
+       map (admits_b quick_xml_de (map erase (render_abs quick_xml_de e13))) [ex_doc1; ex_doc3])
+  | _, _ => (true, [])
+  end = (false, [true; true]).
+Proof. exact ex_extra_attribute. Qed.
+
+(* <r><p:a k=".."/><q:a/></r> : clash_free false, plain true, admitted false *)
+Example C01_needs_clash_free :
+  match run_dom [ex_clash] with
+  | Some e => (clash_free_tree e, names_plain e,
+               admits_b quick_xml_de (map erase (render_abs quick_xml_de e)) ex_clash)
+  | None => (true, true, true)
+  end = (false, true, false).
+Proof. exact ex_needs_clash_free. Qed.
+
+(* an element called `@a` beside an attribute `a` : clash_free true, plain false, admitted false *)
+Example C01_needs_plain :
+  match run_dom [ex_notplain] with
+  | Some e => (clash_free_tree e, names_plain e,
+               admits_b quick_xml_de (map erase (render_abs quick_xml_de e)) ex_notplain)
+  | None => (false, true, true)
+  end = (true, false, false).
+Proof. exact ex_needs_plain. Qed.
+
+(* <r a=".."><a k=".."/></r> : admitted with prefix "@", not with the empty prefix *)
+Example C01_needs_prefix :
+  match run_dom [ex_noprefix] with
+  | Some e => (clash_free_tree e, names_plain e,
+               admits_b quick_xml_de (map erase (render_abs quick_xml_de e)) ex_noprefix,
+               admits_b serde_xml_rs (map erase (render_abs serde_xml_rs e)) ex_noprefix)
+  | None => (false, false, false, true)
+  end = (true, true, true, false).
+Proof. exact ex_needs_prefix. Qed.
+
+Print Assumptions C01_TreeAdmits_reading.
+Print Assumptions C01_repr_admits.
+Print Assumptions C01_tree_admits.
+Print Assumptions C01_render_admits_tree.
+Print Assumptions C01_render_admits.
+Print Assumptions C01_render_admits_quick_xml.
+Print Assumptions C01_clash_free_Uniq.
+Print Assumptions C01_example_hypotheses.
+Print Assumptions C01_example_admits_both.
+Print Assumptions C01_example_first_alone.
+Print Assumptions C01_example_extra_attribute.
+Print Assumptions C01_needs_clash_free.
+Print Assumptions C01_needs_plain.
+Print Assumptions C01_needs_prefix.
